@@ -156,7 +156,7 @@ class Run:
             if m:
                 cur = m.group(1).split()
             fn_props[i] = cur
-            m = re.search(r"//\s*\[((?:C\d+\s*)+)(?::\s*([^\]]+))?\]", l)
+            m = re.search(r"(?://|/\*)\s*\[((?:C\d+\s*)+)(?::\s*([^\]]+))?\]", l)
             if m:
                 clause[i] = (m.group(1).split(), (m.group(2) or "").strip())
         return lines, fn_props, clause
@@ -339,8 +339,10 @@ def run_verus_property(run, cfg):
             # the same closure text is re-checked inside every per-variant copy: one obligation
             m = re.search(r"ensures\s+(.{0,90})", f["text"])
             fn = re.sub(r"__.*$", "", fn)
-            # a closure computes an operand/result value: functional semantics = the primary property of the function
-            f["labels"] = f["labels"][:1]
+            # a closure computes an operand/result value: functional semantics = the primary property of the
+            # function, unless the overlay labelled the closure itself
+            if not f["label_name"]:
+                f["labels"] = f["labels"][:1]
             ob = "closure-ensures[%s]@%s" % (re.sub(r"\s+", "", m.group(1) if m else f["text"][:90]), fn)
         else:
             ob = "%s@%s" % ((f["label_name"] or f["message"]).replace(" ", "-"), fn)
